@@ -132,10 +132,18 @@ type world struct {
 	broken  string // the cache refused something the model accepts (not this property's business)
 }
 
-func newWorld(targets []string) *world {
+// newWorld creates the real cache and server. opt selects a server option: 0 none, 1 WithStats, 2 WithoutDupReport.
+func newWorld(targets []string, opt int) *world {
 	w := &world{targets: append([]string{}, targets...), leaves: map[string]*leaf{}, trees: map[string]*model.Tree{}}
 	w.c = cache.New(targets)
-	w.srv, _ = subscribe.NewServer(w.c)
+	switch opt {
+	case 1:
+		w.srv, _ = subscribe.NewServer(w.c, subscribe.WithStats())
+	case 2:
+		w.srv, _ = subscribe.NewServer(w.c, subscribe.WithoutDupReport())
+	default:
+		w.srv, _ = subscribe.NewServer(w.c)
+	}
 	w.c.SetClient(w.srv.Update)
 	for _, t := range targets {
 		w.trees[t] = model.NewTree()
@@ -834,7 +842,7 @@ func (w *world) dump() []string {
 	return out
 }
 
-func reportStuck(r *vlib.Run, mode string, trial int, s *subSpec, obs *rpcObs, wit map[string]interface{}) {
+func reportStuck(r *vlib.Run, mode string, trial int, tag string, s *subSpec, obs *rpcObs, wit map[string]interface{}) {
 	if !obs.StuckAttr {
 		r.Inconclusive("nothing was sent for " + stuckGrace.String() + " while waiting for " + obs.Stuck + ", but the goroutine dump does not show the RPC inside Subscribe")
 		return
@@ -845,7 +853,7 @@ func reportStuck(r *vlib.Run, mode string, trial int, s *subSpec, obs *rpcObs, w
 		sig = "no-sync"
 	}
 	wit["subscription"] = s.describe()
-	r.Violation(mode, trial, sig, fmt.Sprintf("%s: nothing was sent for %v while the harness waited for %s with nothing else running, and the RPC goroutine is still inside Subscribe (%d rounds completed before)", s.describe()["mode"], stuckGrace, obs.Stuck, len(obs.Rounds)), wit)
+	r.Violation(mode, trial, sig, fmt.Sprintf("%s %s: nothing was sent for %v while the harness waited for %s with nothing else running, and the RPC goroutine is still inside Subscribe (%d rounds completed before)", tag, s.describe()["mode"], stuckGrace, obs.Stuck, len(obs.Rounds)), wit)
 }
 
 // ---------------------------------------------------------------------------
@@ -871,7 +879,7 @@ func runStatic(r *vlib.Run, cs staticCase, w *world, s *subSpec, slow int, mutat
 		r.Count("rejected_origin_combination_rpcs", 1)
 		switch {
 		case obs.Stuck != "":
-			reportStuck(r, cs.mode, cs.trial, s, obs, map[string]interface{}{"case": cs.tag})
+			reportStuck(r, cs.mode, cs.trial, cs.tag, s, obs, map[string]interface{}{"case": cs.tag})
 		case obs.Panic != "":
 			r.Violation(cs.mode, cs.trial, "panic:subscribe", "Server.Subscribe panicked on a rejected origin combination: "+obs.Panic, map[string]interface{}{"case": cs.tag, "subscription": s.describe()})
 		case obs.Err != nil:
@@ -908,7 +916,7 @@ func runStatic(r *vlib.Run, cs staticCase, w *world, s *subSpec, slow int, mutat
 	if obs.Stuck != "" {
 		m := wit()
 		m["cache_content_now"] = w.dump()
-		reportStuck(r, cs.mode, cs.trial, s, obs, m)
+		reportStuck(r, cs.mode, cs.trial, cs.tag, s, obs, m)
 		return
 	}
 	mode := "once"
@@ -974,7 +982,7 @@ func (w *world) snapshot() *world {
 // Exhaustive sub-mode.
 
 func exhWorld() *world {
-	w := newWorld([]string{"T0", "T1"})
+	w := newWorld([]string{"T0", "T1"}, 0)
 	for _, a := range []string{"a", "b"} {
 		for _, b := range []string{"a", "b"} {
 			for _, c := range []string{"a", "b"} {
@@ -1174,7 +1182,7 @@ func genWorld(rng *rand.Rand) (*world, []string) {
 	for i := 0; i < nT; i++ {
 		targets = append(targets, fmt.Sprintf("T%d", i))
 	}
-	w := newWorld(targets)
+	w := newWorld(targets, []int{0, 0, 1, 2}[rng.Intn(4)])
 	origins := originSets[rng.Intn(len(originSets))]
 	want := 5 + rng.Intn(26)
 	if rng.Intn(10) < 7 {
@@ -1429,7 +1437,7 @@ func (w *world) mutate(rng *rand.Rand, origins []string) (did []string) {
 			q := elemsIndex(l.Elems)
 			q = append([]string{}, q[:1+rng.Intn(len(q))]...)
 			for i := range q {
-				if rng.Intn(4) == 0 {
+				if rng.Intn(4) == 0 && (i > 0 || rng.Intn(6) == 0) {
 					q[i] = "*"
 				}
 			}
@@ -1723,7 +1731,7 @@ func runConcurrent(r *vlib.Run, trial int, rng *rand.Rand) {
 	}
 	if stuckAt >= 0 {
 		rc := rpcs[stuckAt]
-		reportStuck(r, "concurrent", trial, rc.sub, rc.obs, base)
+		reportStuck(r, "concurrent", trial, fmt.Sprintf("rpc %d", stuckAt), rc.sub, rc.obs, base)
 		return
 	}
 
@@ -1905,10 +1913,10 @@ func body(r *vlib.Run) {
 	if r.OnlyTrial < 0 || r.OnlyMode == "exhaustive" {
 		runExhaustive(r)
 	}
-	r.ForTrials("static", r.N(1500, 40000), func(trial int, rng *rand.Rand) {
+	r.ForTrials("static", r.N(4000, 60000), func(trial int, rng *rand.Rand) {
 		runRandomStatic(r, trial, rng)
 	})
-	r.ForTrials("concurrent", r.N(80, 800), func(trial int, rng *rand.Rand) {
+	r.ForTrials("concurrent", r.N(200, 2000), func(trial int, rng *rand.Rand) {
 		runConcurrent(r, trial, rng)
 	})
 }
